@@ -79,6 +79,14 @@ impl<'a> UnusedLiteralVisitor<'a> {
             .map(|pos| position.end_offset + pos + 1)
             .unwrap_or(src.len());
 
+        // If there's anything else on this line, only remove the
+        // expression itself.
+        let before = &src[line_start..position.start_offset];
+        let after = &src[position.end_offset..line_end];
+        if !before.trim().is_empty() || !after.trim().is_empty() {
+            return position.clone();
+        }
+
         // Create a new position spanning the entire line
         let mut line_position = position.clone();
         line_position.start_offset = line_start;
